@@ -18,6 +18,7 @@ EXPLANATION = (
     "sum over the SAME members that are rescaled (so the learned probabilities of an AD sum to the probability mass available to it), skips single-member "
     "groups and leaves the weights alone when w is 0 except for the documented fallback; LF5 step() evaluates the examples with the current weights and "
     "then updates (one E-step, one M-step, in that order) and run() iterates step()."
+    " Added after seed round 6: LF4 also requires the normalisation sum to be taken per substitution key."
 )
 TECHNIQUE = "static analysis: decision tables of the accumulation loops of the EM update (paired accumulators), summed-set == scaled-set rule"
 LEVEL_TEXT = EXPLANATION
